@@ -1958,10 +1958,16 @@ func c04VisitedProtocol(ctx *Ctx, r *Report, g *callGraph) {
 				// record visits
 				if as, ok := guard.Init.(*ast.AssignStmt); ok && len(as.Lhs) == 2 {
 					if vid, ok := as.Lhs[0].(*ast.Ident); ok && vid.Name != "_" {
+						// the value itself is what the function answers with (`return v`, `return v, nil`); a stored value that
+						// is only compared or quoted in an error (`seen[name] = location`) still records a visit
 						usesValue := false
 						ast.Inspect(guard.Body, func(k ast.Node) bool {
-							if id, ok := k.(*ast.Ident); ok && info.Uses[id] == info.Defs[vid] {
-								usesValue = true
+							if ret, ok := k.(*ast.ReturnStmt); ok {
+								for _, res := range ret.Results {
+									if id, ok := ast.Unparen(res).(*ast.Ident); ok && info.Uses[id] == info.Defs[vid] {
+										usesValue = true
+									}
+								}
 							}
 							return true
 						})
